@@ -160,14 +160,25 @@ func buildCall(sym slip.Symbol, args slip.List, p *slip.Printer) (node Node) {
 		if 0 < len(args) {
 			node = newQuote(args[0], p)
 		}
+	// The layouts of the defining forms index their parts. A form that is
+	// too short for its layout, (defun) or (let), is written as a plain
+	// call at the end of this function.
 	case "let", "let*":
-		node = newLet(name, args, p)
+		if 1 <= len(args) {
+			node = newLet(name, args, p)
+		}
 	case "lambda":
-		node = lambdaFromList(args, p)
+		if 1 <= len(args) {
+			node = lambdaFromList(args, p)
+		}
 	case "defun", "defmacro":
-		node = defunFromList(name, args, p)
+		if 2 <= len(args) {
+			node = defunFromList(name, args, p)
+		}
 	case "defvar", "defconstant", "defparameter":
-		node = defvarFromList(name, args, p)
+		if 1 <= len(args) {
+			node = defvarFromList(name, args, p)
+		}
 	case "cond":
 		node = newFun(name, args, p, 2)
 	case "progn":
@@ -195,15 +206,21 @@ func buildCall(sym slip.Symbol, args slip.List, p *slip.Printer) (node Node) {
 	case "defflavor":
 		node = defflavorFromList(args, p)
 	case "defmethod", "defwhopper":
-		if _, ok := args[0].(slip.List); ok {
-			node = defmethodFromList(name, args, p)
-		} else {
-			node = defGenMethod(args, p)
+		if 2 <= len(args) {
+			if _, ok := args[0].(slip.List); ok {
+				node = defmethodFromList(name, args, p)
+			} else {
+				node = defGenMethod(args, p)
+			}
 		}
 	case "defgeneric":
-		node = defGeneric(args, p)
+		if 2 <= len(args) {
+			node = defGeneric(args, p)
+		}
 	case "defclass", "define-condition":
-		node = defclassFromList(name, args, p)
+		if 3 <= len(args) {
+			node = defclassFromList(name, args, p)
+		}
 	default:
 		if 0 < len(name) && name[0] == ':' { // some option
 			list := &List{children: []Node{&Leaf{text: []byte(name)}}}
@@ -214,6 +231,9 @@ func buildCall(sym slip.Symbol, args slip.List, p *slip.Printer) (node Node) {
 		} else {
 			node = newFun(string(slip.Symbol(name).Readably(nil, p)), args, p, 1)
 		}
+	}
+	if node == nil {
+		node = newFun(string(slip.Symbol(name).Readably(nil, p)), args, p, 1)
 	}
 	return
 }
